@@ -24,7 +24,15 @@ the solution nodes / time levels, repeated nodes, points between the nodes in no
 SetGridObs / SetGridSol / SetTimeObs; observed[k] is the value at grid_obs[k] (named deviation DevObserveInSolutionOrder: a mask of
 the solution nodes -> solution-grid order, must violate SeqObserveCurrent).  The same grids / times are cases of the kinds sobs /
 tobs (polynomial data), steady (omode perm / pick) and time (explu / finalrev).  A refusal of a repeated node / time is an
-observation; a refusal of an unsorted sequence is a mismatch `.../refused_not_ascending` (open finding C18-F2 for the time class).
+observation; a refusal of an unsorted sequence is a mismatch `.../refused_not_ascending` (C18-F2, repaired in /repo).
+"solve" = SEVERAL PARAMETERS THROUGH ONE TIME-DEPENDENT OBJECT: Assemble(p1) Solve Assemble(p2) Solve ... / Forward(p1) Forward(p2)
+Gradient(p) on time grids with ONE, two, three steps and one / two nodes, operator, source and initial condition depending on the
+parameter and on time; the spec's Solve goes through the assemble_step calls and the object keeps the step system <<time, parameter>>
+between the calls (SeqSolveCurrent; deviation DevStaleStepSystem).  WHERE THE GRIDS LIE (field xf of the kinds sobs / tobs and of the
+mode grid): all nodes / time levels under x = om 2^oe + 2^se xi (translated by 0, +-2^10, +-2^20, scaled by 2^-30 .. 2^20), staggered
+grids of the length of the solution grid - the expected values do not depend on xf (ObsAffine, SeqObserveAffine) and 'equal' is
+equality node for node (SobsImplExact / TobsImplExact; deviation DevEqualWithinTolerance).  DATA LAYOUT AND TYPE: the same numbers
+as integer / float32 / non-contiguous / read-only arrays (time_obs and parameters also as lists).
 """
 META = {
     "claimed": True,
@@ -66,7 +74,30 @@ META = {
              "(observed[i][j] = value at grid_obs[i], time_obs[j]; SeqObserveCurrent, SteadyObserve, TobsExact, SobsExact), "
              "SeqOrderVisible guarantees that another order is another observation, and the named deviation 'observation nodes that "
              "are all solution nodes are read off with a mask of the solution grid' must violate SeqObserveCurrent. Replayed on both "
-             "PDE classes, with and without observation map, through observe() and PDEModel.forward (steady: also its Jacobian)."),
+             "PDE classes, with and without observation map, through observe() and PDEModel.forward (steady: also its Jacobian). "
+             "Several parameters through ONE time-dependent object (mode solve): Assemble(p1) Solve Assemble(p2) Solve ... and Solve twice "
+             "on the PDE object, Forward(p1) Forward(p2) Gradient(p) through PDEModel, on time grids with ONE, two and three steps "
+             "(rational and integer levels), one and two nodes, both methods, with operator A0 + t A1 + th1 A2, source and initial "
+             "condition depending on the parameter and on time; the spec's Solve is the sequence of assemble_step calls of solve() and "
+             "the object keeps the step system <<time, parameter>> it holds between the calls; TLC checks SeqSolveCurrent (every stored "
+             "level satisfies the documented recurrence from the initial condition for the parameter assembled LAST, residual form) and "
+             "SeqSensCurrent (the Jacobian a Gradient call is answered with satisfies the differentiated recurrence at the parameter of "
+             "THAT call); the named deviation 'assemble_step(t) keeps the system it holds when that was assembled at the same time' must "
+             "violate SeqSolveCurrent. Replayed on one real TimeDependentLinearPDE / PDEModel per behaviour and per admissible layout of "
+             "the time levels: every solve against TLC's exact levels (1e-10), observe / forward, PDEModel.gradient with the exact "
+             "Jacobian supplied (and central differences of forward on a fresh object). Single node / single time step also as steady and "
+             "time problems. "
+             "Where the grids lie on the axis (field xf): the kinds sobs / tobs and depth-3 setter sequences of the mode grid are repeated "
+             "with every node, time level and observation time under x = om 2^oe + 2^se xi (translated by 2^10, +-2^20, scaled by 2^-30, "
+             "2^-20, 2^20, cells of 2^-7 at 2^10 and of 2^-11 at 2^20; powers of two, so the replayer builds exactly these grids), with "
+             "staggered observation grids / times of the length of the solution grid / one time next to the final time; TLC checks that "
+             "the expected values do not depend on xf (ObsAffine, SeqObserveAffine: Lagrange interpolants on the moved grids, for every xf "
+             "whose nodes fit 32-bit rationals) and that the implementation-shaped observation (equal = node for node) is p(x_obs) "
+             "wherever the grids lie (SobsImplExact, TobsImplExact); the named deviation 'equal within a tolerance relative to the "
+             "magnitude of the nodes' must violate them (two cfgs: steady, time). "
+             "Data layout and type: every sobs / tobs case a second time and every solve-mode behaviour with the same numbers as integer, "
+             "float32 (only exactly representable values; tolerance 1e-6), non-contiguous and read-only arrays - grids, time levels, "
+             "time_obs (also as list), parameters (also as list on the PDE object), the initial condition returned by the form."),
     "note": ("Bounded sizes (2-4 nodes for solve, 5x5 nodes for observation); interpolation on non-polynomial data at non-coinciding "
              "points is not specified. 'all'/explicit observation needs >= 4 nodes and >= 4 time levels in the code (bicubic spline); "
              "smaller grids are recorded as an observation only. PDEModel with matrix-valued observations (several times) is "
@@ -84,7 +115,12 @@ META = {
              "parameter). Order mode: <= 3 (quick) / 4 (thorough) calls; whether a node / time given TWICE is accepted is not documented "
              "(a refusal is recorded as observation, an accepted call is compared); a refusal of an unsorted grid / times is a "
              "mismatch (TimeDependentLinearPDE on the unchanged tree: open finding C18-F2, so these cases are compared only where the "
-             "library returns - final time on the solution grid, repeated ascending nodes - until the proposed fix is applied)."),
+             "library returns - final time on the solution grid, repeated ascending nodes - until the proposed fix is applied). "
+             "Mode solve: <= 6 calls (3 assemble-solve pairs, one repeated solve) / 4 model calls; observation there is the final time on "
+             "the solution grid (fewer than 4 levels). A single node observed at a single time comes back as a 0-d array (squeeze): the "
+             "shape is recorded, the value compared. Changes of variable whose nodes do not fit 32-bit rationals (sm30, t20sm10) are "
+             "replayed on the strength of ObsAffine (checked by TLC for the others). Python lists as grid_sol / grid_obs / time_steps "
+             "are not documented (np.ndarray) - recorded as observation only; layouts rotate with the position of the case."),
     "technique": "TLA+ spec (PDE) model-checked with TLC; TLC-emitted problems and exact rational trajectories replayed into cuqi.pde / PDEModel",
 }
 
@@ -268,13 +304,22 @@ def check_steady(ctx, cuqi, c, idx):
         if kwargs:
             pde_kw["linalg_solve_kwargs"] = kwargs
     ctx.case(("steady", c["A0"], c["th"], c["ret"], c["omode"], c["omap"]), facet="steady/" + c["omode"])
+    # data layout and type: the parameter as float64 / integer / read-only / non-contiguous array or list (the form is the user's and
+    # indexes it), the grids as read-only / non-contiguous arrays
+    th_in, th_lay = _pick(th, idx, ("plain", "int", "ro", "view", "list"))
+    if idx % 4 == 3:
+        for g_ in ("grid_sol", "grid_obs"):
+            if g_ in pde_kw:
+                pde_kw[g_] = _pick(pde_kw[g_], idx // 4, ("ro", "view"))[0]
     try:
         pde = cuqi.pde.SteadyStateLinearPDE(form, **pde_kw)
-        pde.assemble(th)
+        pde.assemble(th_in)
         out = _quiet(pde.solve)
     except Exception as e:
-        ctx.mismatch(key + "/raises", c, "assemble/solve raised %r" % (e,))
+        ctx.mismatch(key + "/raises", c, "assemble/solve raised %r (parameter as %s)" % (e, th_lay))
         return
+    if not np.array_equal(np.asarray(th_in, dtype=float), th):
+        ctx.mismatch(key + "/arg_mutated", c, "assemble / solve changed the parameter array of the caller", th, th_in)
     # Assemble
     if not calls or any(not np.array_equal(p, th) for p in calls):
         ctx.mismatch(key + "/form_calls", c, "PDE_form is not evaluated at the supplied parameter", [th], calls)
@@ -326,7 +371,7 @@ def check_steady(ctx, cuqi, c, idx):
         model = _quiet(lambda: cuqi.model.PDEModel(pde_m, range_geometry=len(fwd_exp), domain_geometry=2))
         other = th + np.array([0.5, -0.25])
         y_other = _quiet(lambda: model.forward(other))
-        y = np.asarray(_quiet(lambda: model.forward(th)), dtype=float)
+        y = np.asarray(_quiet(lambda: model.forward(_pick(th, idx + 1, ("plain", "int", "ro", "view"))[0])), dtype=float)
     except Exception as e:
         ctx.mismatch(key + "/model_raises", c, "PDEModel.forward raised %r" % (e,), fwd_exp)
         return
@@ -418,16 +463,24 @@ def check_time(ctx, cuqi, c, idx):
         except Exception as e:
             ctx.observe("time_obs_uppercase", "rejected at construction (%s)" % type(e).__name__)
             kw["time_obs"] = "final"
+    # data layout and type (see check_steady): parameter, time levels, solution grid
+    th_in, th_lay = _pick(th, idx, ("plain", "int", "ro", "view", "list"))
+    kw_in = dict(kw)
+    if idx % 3 == 2:
+        kw_in["time_steps"] = _pick(T, idx // 3)[0]
+        kw_in["grid_sol"] = _pick(x, idx // 3 + 1, ("ro", "view", "plain"))[0]
     try:
-        pde = cuqi.pde.TimeDependentLinearPDE(form, **kw)
-        pde.assemble(th)
+        pde = cuqi.pde.TimeDependentLinearPDE(form, **kw_in)
+        pde.assemble(th_in)
         out = _quiet(pde.solve)
     except Exception as e:
-        ctx.mismatch(key + "/raises", c, "assemble/solve raised %r" % (e,))
+        ctx.mismatch(key + "/raises", c, "assemble/solve raised %r (parameter as %s)" % (e, th_lay))
         return
     if not (isinstance(out, tuple) and len(out) == 2):
         ctx.mismatch(key + "/solve_shape", c, "solve() does not return (solution, info)", "(solution, info)", repr(out)[:200])
         return
+    if not np.array_equal(np.asarray(th_in, dtype=float), th):
+        ctx.mismatch(key + "/arg_mutated", c, "assemble / solve changed the parameter array of the caller", th, th_in)
     if idx % 4 == 1 and c["status"] == "done":
         _method_spelling(ctx, cuqi, c, kw, th, traj)
     u = np.asarray(out[0], dtype=float)
@@ -540,6 +593,11 @@ def _restrict(u, x, T, gobs, tobs):
 
 # ----------------------------------------------------------------------------------------------------------
 def check_tobs(ctx, cuqi, c, idx):
+    _tobs_once(ctx, cuqi, c, idx, False)
+    _tobs_once(ctx, cuqi, c, idx, True)
+
+
+def _tobs_once(ctx, cuqi, c, idx, with_layout):
     # where the grids lie on the axis: the reference nodes under the change of variable xf (the expected values do not depend on it)
     xfm = c.get("xfm", {"om": 0, "oe": 0, "se": 0})
     xf = c.get("xf", "id")
@@ -552,14 +610,16 @@ def check_tobs(ctx, cuqi, c, idx):
     if len(tobs) == 1:
         exp = exp[:, 0]
     key = "observe_time/poly/g=%s/t=%s/omap=%s" % (c["g"], c["t"], c["omap"]) + ("" if xf == "id" else "/xf=%s" % xf)
-    # data layout and type (every third variant): the same nodes / times as integer, float32, non-contiguous, read-only arrays,
-    # time_obs ('array_like') also as a list
+    # data layout and type (every case a second time): the same nodes / times as integer, float32, non-contiguous, read-only
+    # arrays (rotating with the position of the case), time_obs ('array_like') also as a list
     lay = {}
-    if idx % 3 == 2:
-        x, lay["x"] = _pick(x, idx // 3)
-        T, lay["T"] = _pick(T, idx // 3 + 1)
-        gobs, lay["gobs"] = _pick(gobs, idx // 3 + 2)
-        tobs, lay["tobs"] = _pick(tobs, idx // 3 + 3, ("plain", "list", "int", "f32", "view", "ro"))
+    if with_layout:
+        x, lay["x"] = _pick(x, idx)
+        T, lay["T"] = _pick(T, idx + 1)
+        gobs, lay["gobs"] = _pick(gobs, idx + 2)
+        tobs, lay["tobs"] = _pick(tobs, idx + 3, ("plain", "list", "int", "f32", "view", "ro"))
+        if set(lay.values()) == {"plain"}:
+            x, lay["x"] = _lay(x, "ro"), "ro"
     kw = dict(time_steps=T, grid_sol=x, observation_map=_omap(c["omap"]))
     if c["g"] != "same" or idx % 2:
         kw["grid_obs"] = gobs
@@ -567,7 +627,7 @@ def check_tobs(ctx, cuqi, c, idx):
         kw["time_obs"] = c["t"]
     else:
         kw["time_obs"] = tobs
-    ctx.case(("tobs", c["c"], c["g"], c["t"], c["omap"], xf), facet="observe/poly-time" + ("" if xf == "id" else "/xf"))
+    ctx.case(("tobs", c["c"], c["g"], c["t"], c["omap"], xf, with_layout), facet="observe/poly-time" + ("" if xf == "id" else "/xf"))
     nx = len(c["x"])
     try:
         pde = cuqi.pde.TimeDependentLinearPDE(lambda p, t: (np.eye(nx), np.zeros(nx), np.zeros(nx)), **kw)
@@ -587,19 +647,26 @@ def check_tobs(ctx, cuqi, c, idx):
 
 
 def check_sobs(ctx, cuqi, c, idx):
+    _sobs_once(ctx, cuqi, c, idx, False)
+    _sobs_once(ctx, cuqi, c, idx, True)
+
+
+def _sobs_once(ctx, cuqi, c, idx, with_layout):
     xfm = c.get("xfm", {"om": 0, "oe": 0, "se": 0})
     xf = c.get("xf", "id")
     x, gobs = _xf_nodes(xfm, c["x"]), _xf_nodes(xfm, c["gobs"])
     data, exp = _qv(c["data"]), _qv(c["fwd"])
     key = "observe_steady/poly/g=%s/omap=%s" % (c["g"], c["omap"]) + ("" if xf == "id" else "/xf=%s" % xf)
     lay = {}
-    if idx % 3 == 2:          # data layout and type, see check_tobs
-        x, lay["x"] = _pick(x, idx // 3)
-        gobs, lay["gobs"] = _pick(gobs, idx // 3 + 1)
+    if with_layout:          # data layout and type, see check_tobs
+        x, lay["x"] = _pick(x, idx)
+        gobs, lay["gobs"] = _pick(gobs, idx + 2)
+        if set(lay.values()) == {"plain"}:
+            gobs, lay["gobs"] = _lay(gobs, "view"), "view"
     kw = dict(grid_sol=x, observation_map=_omap(c["omap"]))
     if c["g"] != "same" or idx % 2:
         kw["grid_obs"] = gobs
-    ctx.case(("sobs", c["c"], c["g"], c["omap"], xf), facet="observe/poly-steady" + ("" if xf == "id" else "/xf"))
+    ctx.case(("sobs", c["c"], c["g"], c["omap"], xf, with_layout), facet="observe/poly-steady" + ("" if xf == "id" else "/xf"))
     nx = len(c["x"])
     try:
         pde = cuqi.pde.SteadyStateLinearPDE(lambda p: (np.eye(nx), np.zeros(nx)), **kw)
@@ -637,7 +704,7 @@ def _seq_time_obs_arg(name, times, idx):
     return times.copy()
 
 
-def _seq_build(cuqi, c, form, gs, go, to_name, to, idx, by_reference=False):
+def _seq_build(cuqi, c, form, gs, go, to_name, to, idx, by_reference=False, T=None):
     """by_reference: the arrays themselves are handed over (mode "ginp": the caller keeps them and modifies them in place)"""
     kw = dict(grid_sol=gs if by_reference else gs.copy(), observation_map=_omap(c["omap"]))
     if go is not None:
@@ -646,7 +713,7 @@ def _seq_build(cuqi, c, form, gs, go, to_name, to, idx, by_reference=False):
         kw["grid_obs"] = None
     if c["kind"] == "sseq":
         return cuqi.pde.SteadyStateLinearPDE(form, **kw)
-    return cuqi.pde.TimeDependentLinearPDE(form, time_steps=_qv(c["T"]), method=c["method"],
+    return cuqi.pde.TimeDependentLinearPDE(form, time_steps=_qv(c["T"]) if T is None else T, method=c["method"],
                                            time_obs=to if by_reference else _seq_time_obs_arg(to_name, to, idx), **kw)
 
 
@@ -687,17 +754,25 @@ def _solve_form(c, calls, ic_layout):
 
 
 def check_solve_seq(ctx, cuqi, c, idx):
+    """every behaviour once per admissible layout of the time levels (float64, integer where the levels are integers, float32,
+    non-contiguous, read-only); the layouts of the grid, the parameters and the initial condition rotate"""
+    for v in range(len(_layouts(_qv(c["T"])))):
+        _solve_seq_once(ctx, cuqi, c, idx, v)
+
+
+def _solve_seq_once(ctx, cuqi, c, idx, v):
     """mode "solve" of the kind tseq: Assemble(p1) Solve Assemble(p2) Solve ... / Forward(p1) Forward(p2) Gradient(p) on ONE
     TimeDependentLinearPDE (PDEModel) with one, two or three time steps and one or two nodes: every solve has to return the levels
     of the documented recurrence for the parameter assembled LAST (TLC's exact levels)"""
     via, m, method = c["via"], c["m"], c["method"]
     n, omap = m["n"], c["omap"]
     base = "seq/solve/%s/%s/n=%d/nt=%d" % (method, via, n, len(c["T"]))
-    ident = ("solve", via, n, c["tg"], method)
+    ident = ("solve", via, n, c["tg"], method, v)
     fac = "seq/solve/tseq"
     calls = []
     # data layout and type of the arrays of the user: time levels, solution grid, parameters, the initial condition the form returns
-    T, lay_T = _pick(_qv(c["T"]), idx)
+    T, lay_T = _pick(_qv(c["T"]), v)
+    idx = idx + v
     x, lay_x = _pick(_qv(c["new"]["gs"]), idx // 2, ("plain", "ro", "f32", "view"))
     ic_layout = ("plain", "int", "view", "ro")[(idx // 3) % 4]
     par_allow = ("plain", "int", "ro", "view") + (("list",) if via == "pde" else ())      # PDEModel.forward documents ndarray / CUQIarray
@@ -748,7 +823,10 @@ def check_solve_seq(ctx, cuqi, c, idx):
         # the Jacobian of the pipeline at the parameter asked for, exact from the specification
         for e in c["hist"]:
             if e["a"] == "gradient":
-                jac_of[tuple(float(v) for v in e["val"]["th"])] = np.array([_qv(col) for col in e["val"]["jac"]]).T
+                # TLC: exact derivative of the last level, and the last level; the derivative of the elementwise map is applied here
+                du = np.array([_qv(col) for col in e["val"]["jac"]]).T
+                u_last = _qv(e["val"]["u"])
+                jac_of[tuple(float(v) for v in e["val"]["th"])] = du if omap == "id" else (2.0 * u_last)[:, None] * du
         n_out = n
 
         def jac(wrt):
@@ -861,7 +939,21 @@ def check_seq(ctx, cuqi, c, idx):
     steady = kind == "sseq"
     m = c["m"]
     base = SEQ_BASE[mode] % ((kind, via) if mode == "grid" else (SEQ_CLASS[kind], via))
-    ident = (kind, via, c["go0"], c["to0"], c["omap"]) + (() if mode == "grid" else (mode,))
+    # WHERE the grids lie (mode "grid", field xf of PDE.tla): every node / time level / observation time is handed over under the
+    # change of variable x = om 2^oe + 2^se xi; TLC's expected values do not depend on it (SeqObserveAffine)
+    xf = c.get("xf", "id")
+    GX = _qv
+    Txf = None
+    if xf != "id":
+        from cuqiverif.core import MachineryError
+        if mode != "grid":
+            raise MachineryError("PDE.tla emitted a change of variable for mode %r" % mode)
+        xfm = c["xfm"]
+        GX = lambda v: _xf_nodes(xfm, v)
+        base += "/xf=" + xf
+        if not steady:
+            Txf = GX(c["T"])
+    ident = (kind, via, c["go0"], c["to0"], c["omap"]) + (() if mode == "grid" else (mode,)) + (() if xf == "id" else (xf,))
     fac = "seq/%s" % kind if mode == "grid" else "seq/%s/%s" % ({"param": "inplace", "ginp": "gridinplace", "order": "order"}[mode], kind)
     calls = []
     if steady:
@@ -873,12 +965,20 @@ def check_seq(ctx, cuqi, c, idx):
             return A0 + p[0] * A1 + p[1] * A2, f0 + p[0] * f1 + p[1] * f2
     else:
         form, _, _ = _time_form(dict(m, T=c["T"]), calls)
+        if xf != "id":
+            # the equation is not autonomous: the form of the moved problem is the reference form in the reference time
+            # tau = (t - off) / 2^se, with operator and source per unit of the NEW time - then dt' A' = dt A and the levels are the same
+            ref_form, off_, sc_ = form, float(xfm["om"]) * 2.0 ** xfm["oe"], 2.0 ** xfm["se"]
+
+            def form(p, t):
+                A_, f_, ic_ = ref_form(p, (float(t) - off_) / sc_)
+                return A_ / sc_, f_ / sc_, ic_
     new = c["new"]
-    gs = _qv(new["gs"])
-    to = _qv(new["to"]) if not steady else None
+    gs = GX(new["gs"])
+    to = GX(new["to"]) if not steady else None
     to_name = c["to0"]
     godef = c["go0"] == "none"
-    go = None if godef else _qv(new["go"])
+    go = None if godef else GX(new["go"])
     # mode "param": the two parameter arrays of the user (identity kept for the whole behaviour); the object is first assembled with P
     heap = {k: np.array(v, dtype=float) for k, v in new.get("heap", {}).items()} if mode == "param" else {}
     th = heap["P"] if mode == "param" else np.array(c["th0"], dtype=float)
@@ -893,7 +993,7 @@ def check_seq(ctx, cuqi, c, idx):
     # construct - assemble(th0) - solve: the state every behaviour starts from
     ctx.case(("seq-new",) + ident, facet=fac + "/new")
     try:
-        pde = _seq_build(cuqi, c, form, gs, go, to_name, to, idx, by_reference=(mode == "ginp"))
+        pde = _seq_build(cuqi, c, form, gs, go, to_name, to, idx, by_reference=(mode == "ginp"), T=Txf)
         pde.assemble(th)
         sol = np.asarray(_quiet(pde.solve)[0], dtype=float)
     except Exception as e:
@@ -935,7 +1035,7 @@ def check_seq(ctx, cuqi, c, idx):
                          % (what, ".".join(path[:-1]) or "construction",
                             " for the CURRENT value %s of the supplied parameter array" % (e["val"]["th"],) if mode == "param" else "",
                             "" if steady else " and times",
-                            [_q(q) for q in e["gs"]], [_q(q) for q in e["go"]], "" if steady else " time_obs=%s" % [_q(q) for q in e["to"]]),
+                            GX(e["gs"]).tolist(), GX(e["go"]).tolist(), "" if steady else " time_obs=%s" % GX(e["to"]).tolist()),
                          exp, got, detail={"step": len(path)})
         return good
 
@@ -995,11 +1095,11 @@ def check_seq(ctx, cuqi, c, idx):
         passed = None          # the array passed to the call (mode "param") and its contents before the call
         try:
             if a == "set_grid_obs":
-                pde.grid_obs = None if e["arg"] == "none" else _qv(e["val"])
+                pde.grid_obs = None if e["arg"] == "none" else GX(e["val"])
             elif a == "set_grid_sol":
-                pde.grid_sol = _qv(e["val"])
+                pde.grid_sol = GX(e["val"])
             elif a == "set_time_obs":
-                to_name, to = e["arg"], _qv(e["val"])
+                to_name, to = e["arg"], GX(e["val"])
                 prop = getattr(type(pde), "time_obs", None)
                 if isinstance(prop, property) and prop.fset is not None:
                     pde.time_obs = _seq_time_obs_arg(to_name, to, idx)
@@ -1007,7 +1107,7 @@ def check_seq(ctx, cuqi, c, idx):
                 else:
                     # no public setter: the documented way to choose the observation times is the constructor
                     prev = e_prev_state
-                    pde = _seq_build(cuqi, c, form, _qv(prev["gs"]), None if prev["godef"] else _qv(prev["go"]), to_name, to, idx)
+                    pde = _seq_build(cuqi, c, form, GX(prev["gs"]), None if prev["godef"] else GX(prev["go"]), to_name, to, idx, T=Txf)
                     pde.assemble(np.array(prev["par"], dtype=float))
                     model = None
                     ctx.observations["seq_set_time_obs_realised_by"] = "new object with the current grids (no public time_obs setter)"
@@ -1157,17 +1257,17 @@ def check_seq(ctx, cuqi, c, idx):
                 continue
         # the public getters after every call
         g_sol = pde.grid_sol
-        if g_sol is None or not np.array_equal(np.asarray(g_sol, dtype=float), _qv(e["gs"])):
-            ctx.mismatch(sig("grid_sol_getter"), c, "grid_sol is not the solution grid set last", _qv(e["gs"]), g_sol)
+        if g_sol is None or not np.array_equal(np.asarray(g_sol, dtype=float), GX(e["gs"])):
+            ctx.mismatch(sig("grid_sol_getter"), c, "grid_sol is not the solution grid set last", GX(e["gs"]), g_sol)
             return
         g_obs = pde.grid_obs
         if not e["godef"]:
-            if g_obs is None or not np.array_equal(np.asarray(g_obs, dtype=float), _qv(e["go"])):
-                ctx.mismatch(sig("grid_obs_getter"), c, "grid_obs is not the observation grid set last", _qv(e["go"]), g_obs)
+            if g_obs is None or not np.array_equal(np.asarray(g_obs, dtype=float), GX(e["go"])):
+                ctx.mismatch(sig("grid_obs_getter"), c, "grid_obs is not the observation grid set last", GX(e["go"]), g_obs)
                 return
         else:          # what the getter returns for a grid_obs given as None is not documented
             ctx.observations["seq_grid_obs_getter_after_None"] = "None" if g_obs is None else (
-                "grid_sol" if np.array_equal(np.asarray(g_obs, dtype=float), _qv(e["gs"])) else "another grid")
+                "grid_sol" if np.array_equal(np.asarray(g_obs, dtype=float), GX(e["gs"])) else "another grid")
 
 
 def _seq_has(c, pred):
@@ -1225,6 +1325,20 @@ def observe_small_grids(ctx, cuqi):
         ctx.observe("observe_all_on_3x3_grid", "returns restriction" if np.allclose(r, u) else "returns other values")
     except Exception as e:
         ctx.observe("observe_all_on_3x3_grid", "raises %s" % type(e).__name__)
+
+
+def observe_list_grids(ctx, cuqi):
+    """grid_sol / grid_obs are documented as np.ndarray: whether python lists are accepted is recorded, never a violation"""
+    x = [0.0, 0.5, 2.0]
+    u = np.array([1.0, 2.0, 4.0])
+    for name, kw in (("grid_sol list, grid_obs None", dict(grid_sol=x)), ("grid_sol and grid_obs equal lists", dict(grid_sol=x, grid_obs=list(x))),
+                     ("grid_sol array, grid_obs list", dict(grid_sol=np.array(x), grid_obs=[0.25, 1.0]))):
+        try:
+            pde = cuqi.pde.SteadyStateLinearPDE(lambda p: (np.eye(3), np.zeros(3)), **kw)
+            r = np.asarray(_quiet(lambda: pde.observe(u)), dtype=float)
+            ctx.observations.setdefault("grids_as_python_lists", {})[name] = "accepted (%d values)" % r.size
+        except Exception as e:
+            ctx.observations.setdefault("grids_as_python_lists", {})[name] = "raises %s" % type(e).__name__
 
 
 # ----------------------------------------------------------------------------------------------------------
@@ -1336,6 +1450,17 @@ def run(ctx):
         raise MachineryError("vacuous model: no single-node problem")
     if not any(len(c["T"]) == 2 for c in cases if c["kind"] == "time"):
         raise MachineryError("vacuous model: no time grid with a single step")
+    # where the grids lie on the axis, sequences: per class and via an object whose grids are moved, with observe - set grid_obs -
+    # observe and set grid_sol - observe
+    for k in ("sseq", "tseq"):
+        for via in ("pde", "model"):
+            mine = [c for c in seqs if c["kind"] == k and c["via"] == via and c.get("xf", "id") != "id"]
+            need = {"observe.set_grid_obs.observe": lambda a, b, d: (a["a"] in ("observe", "forward") and b["a"] == "set_grid_obs"
+                                                                     and d["a"] in ("observe", "forward")),
+                    "set_grid_sol.observe": lambda a, b: a["a"] == "set_grid_sol" and b["a"] in ("observe", "forward")}
+            missing = [name for name, pred in need.items() if not any(_seq_has(c, pred) for c in mine)]
+            if missing:
+                raise MachineryError("vacuous model: no %s/%s behaviour under a change of variable with %r" % (k, via, missing))
     # where the grids lie on the axis: every change of variable with a staggered grid of the length of the solution grid
     for kind_ in ("sobs", "tobs"):
         have = set((c["xf"], c["g"]) for c in cases if c["kind"] == kind_)
@@ -1354,6 +1479,7 @@ def run(ctx):
     cases = [c for c in cases if c["kind"] not in ("sseq", "tseq")] + chosen
     counts = _dispatch(ctx, cuqi, cases)
     observe_small_grids(ctx, cuqi)
+    observe_list_grids(ctx, cuqi)
     ctx.observe("cases_by_kind", counts)
     ctx.observe("seq_behaviours", {"emitted": len(seqs), "replayed": len(chosen), "sampled": sampled,
                                    "by_length": {str(n): sum(1 for c in chosen if len(c["hist"]) == n)
@@ -1383,7 +1509,9 @@ def run(ctx):
                 "exact trajectory and the assembly times; tobs/sobs: polynomial data with exact observed values; sseq/tseq: one "
                 "behaviour = one sequence of <= SeqDepth calls on one PDE object / PDEModel with the exact value of every call, in the "
                 "modes grid (setters) / param (parameter arrays modified in place, itself or copy) / ginp (grid arrays modified in place "
-                "and handed over again) / order (observation grids / times reversed, permuted, unsorted sub-selections, repeated)); "
+                "and handed over again) / order (observation grids / times reversed, permuted, unsorted sub-selections, repeated) / solve "
+                "(several parameters through one time-dependent object, 1-3 time steps); sobs / tobs / mode grid also under changes of "
+                "variable of the axis (field xf) and, harness side, with the arrays in other layouts / types); "
                 "distinct = problem x comparison group (solve, observe, model forward, gradient variant; sequences: every prefix)")
     ctx.exhaustive = not sampled
     ctx.traces = counts.get("time", 0) + len(chosen)
